@@ -391,11 +391,28 @@ def run(ctx):
                 if ok and isinstance(root, tuple) and root[0] == "base":
                     derived_how = "parent strategy mapped through pandas_dtype_strategy"
                 ctx.ob("R3", sf, f"{strat} [{label}]: chains onto the given strategy", ok, derived_how)
-            sa = {k: v for k, v in a.items() if k in SPEC_ATOMS.get(cname, [])}
-            want = spec(cname, sa)
-            if want is None or want[0] == "RAISE":
-                continue
-            for cj in conjuncts_of(want):
+            consulted = {k: v for k, v in a.items() if k in SPEC_ATOMS.get(cname, [])}
+            free = [k for k in SPEC_ATOMS.get(cname, []) if k not in consulted]
+            combos = [dict(consulted)]
+            for k in free:     # options this path never looks at: it must be right for both values
+                combos = [dict(c, **{k: v}) for c in combos for v in (True, False)]
+            todo_conj = []
+            for sa in combos:
+                want = spec(cname, sa)
+                if want is None or want[0] == "RAISE":
+                    continue
+                extra = ", ".join(f"{k}={sa[k]}" for k in free)
+                for cj in conjuncts_of(want):
+                    todo_conj.append((cj, extra))
+            seen_cj = set()
+            for cj, extra in todo_conj:
+                if (cj, extra) in seen_cj:
+                    continue
+                seen_cj.add((cj, extra))
+                if extra:
+                    label2 = f"{label}; not consulted: {extra}"
+                else:
+                    label2 = label
                 if cj[0] == "strsem" and cj[1] in ("prefix", "suffix"):
                     rule = "R6"
                 else:
@@ -407,7 +424,7 @@ def run(ctx):
                 if not ok and cj[0] == "cmp" and cj[1] in (">", "<") and a.get("is_float(dtype)") is False:
                     # integers: an inclusive bound plus nothing else is not strict; report as is
                     pass
-                ctx.ob(rule, sf, f"{strat} [{label}] guarantees `{show(cj)}`", ok, why)
+                ctx.ob(rule, sf, f"{strat} [{label2}] guarantees `{show(cj)}`", ok, why)
     ctx.stats["strategies_analysed"] = n
     # ---- R5 fallback -------------------------------------------------------------------
     for fname in ("field_element_strategy", "series_strategy", "dataframe_strategy"):
